@@ -955,3 +955,68 @@ def check_C04(ctx):
     lookup_check(ctx, "timing", ["C04"], [3, 10, 40], [1, 3, 10, 40, 100], [0, 1, 2, 3, 4, 5], list(range(0, 18)),
                  "timing networks: total silence, answers after 0 / 1499 / 1500 / 1501 / 2999 ms, error replies, garbage, chains in "
                  "which every answer names one closer node (as deep as the universe), send failures for a third of the nodes and for all")
+
+
+# ============================================================================ node-level: maintenance / bootstrap (C11 C15 C16 C18)
+
+def maint_scenarios(ctx, minutes_q=60, minutes_t=240):
+    s0 = vlib.seed() % 1000
+    q = ctx.quick
+    mins = minutes_q if q else minutes_t
+    combos = [(1, 0), (2, 1), (3, 2), (5, 3), (8, 4), (11, 5), (12, 7)] if q else \
+             [(p, s) for p in (1, 2, 3, 4, 5, 6, 7, 8, 10, 11, 12) for s in (0, 1, 2, 3)]
+    return [("maint-p%d-s%d" % (p, s), ["--scenario", "maint", "--peers", str(p), "--minutes", str(mins), "--seed", str(s0 + s)]) for p, s in combos]
+
+
+def generic_node_check(ctx, scenarios, strict, what, rule, min_events=None):
+    parts, known = run_node_scenarios(ctx, scenarios, strict, what)
+    n, kinds = node_stats(ctx, parts)
+    ctx.cov["traces_validated_against_impl"] = len(parts)
+    ctx.cov["rule"] = rule + "; %d recorded runs of real nodes, every line consumed by TLC (spec/trace/NodeTrace.tla)" % len(parts)
+    if min_events:
+        for ev, k in min_events.items():
+            if kinds.get(ev, 0) < k:
+                raise ToolError("vacuous run: only %d %s events (need %d)" % (kinds.get(ev, 0), ev, k))
+        ctx.cov["distinct_nontrivial"] = sum(kinds.get(ev, 0) for ev in min_events)
+    ctx.cov["samples"] = vlib.head_lines(parts[0].trace_file, 30, 240)[-3:]
+    node_verdict(ctx, parts, what)
+    return parts, kinds
+
+
+def check_C11(ctx):
+    ctx.assumptions += LOOKUP_ASSUME + ["contacts are sampled through load_contacts() every 5 virtual seconds: bounds carry a 5 s sampling slack",
+                                        "premises of C11: loss-free network, no bucket full (at most 12 contacts in distinct buckets)"]
+    generic_node_check(ctx, maint_scenarios(ctx), ["C11"], "maint",
+                       "one real node with 1..12 scripted contacts, every partition into always-answering / silent-from-t "
+                       "(t = 10 s, 14 min 58 s, 15 min, half-way, random), given directly or learned by hearsay, with and without "
+                       "interleaved searches; a case = one load_contacts() sample", {"ApiContacts": 500})
+
+
+def check_C18(ctx):
+    ctx.assumptions += LOOKUP_ASSUME + ["refresh rounds are observed through hook H3 (RefreshRound) because a round that pings nobody is invisible on the wire"]
+    sc = maint_scenarios(ctx, 45, 360)[:5 if ctx.quick else 24]
+    generic_node_check(ctx, sc, ["C18"], "maint",
+                       "hours of virtual time with hundreds to thousands of re-bootstrap cycles (networks with fewer than 10 good nodes "
+                       "re-bootstrap every 5 s); a case = one refresh round, checked against sliding windows of 30 s / 2 min / 20 min",
+                       {"RefreshRound": 300, "BootSuccess": 50})
+
+
+def check_C15(ctx):
+    ctx.assumptions += LOOKUP_ASSUME + ["routers are given as IP literals (the sandbox has no DNS)",
+                                        "the 11-minute bound is checked for plain-node configurations from the instant the network becomes reachable"]
+    seeds = list(range(0, 16)) if ctx.quick else list(range(0, 70))
+    sc = [("boot-s%d" % s, ["--scenario", "boot", "--seed", str(s + (vlib.seed() % 7) * 8)]) for s in seeds]
+    generic_node_check(ctx, sc, ["C15"], "boot",
+                       "builder configurations (no contacts; 1..30 plain nodes some silent / erroring / answering garbage; a contact given both "
+                       "as node and as router; duplicated routers), outages from 0 s to 2 h with flapping, 1..6 bootstrapped() callers "
+                       "registered before, during and after outages and re-bootstraps; a case = one waiter", {"ApiBootWait": 20})
+
+
+def check_C16(ctx):
+    ctx.assumptions += LOOKUP_ASSUME + ["the twin search is issued right after bootstrapped() resolves; the oracle network is static, so both must yield the same multiset"]
+    seeds = list(range(0, 15)) if ctx.quick else list(range(0, 60))
+    sc = [("early-s%d" % s, ["--scenario", "early", "--seed", str(s + (vlib.seed() % 5) * 15)]) for s in seeds]
+    generic_node_check(ctx, sc, ["C16"], "early",
+                       "search() before the first datagram, during the initial round, during the bucket phase, during the back-off after a failed "
+                       "first attempt and after completion; 1..4 early searches (same hash with and without announce); a case = one search",
+                       {"ApiSearch": 30})
